@@ -846,4 +846,101 @@ theorem parse_ok_not_halted {branch : Bool} {bs : Bytes} {rs : List (Bytes × Co
     simp only [finish] at h
     subst h; exact absurd hh (by simp [HaltErr])
 
+/-! ### what a successful parse can hold -/
+
+theorem parse_entries {branch : Bool} {bs : Bytes} {rs : List (Bytes × Cov)} (h : parse branch bs = .ok rs) :
+    rs.length + resEntries rs ≤ eols bs + 1 := by
+  have h1 := run_entries branch {} bs
+  have h2 := trace_length_le branch {} bs
+  rw [parse_ok h]
+  simp only [accEntries, credit] at h1 h2
+  have e : accEntries ({} : Acc) = 0 := rfl
+  simp only [accEntries] at e
+  omega
+
+theorem parse_nameBytes {branch : Bool} {bs : Bytes} {rs : List (Bytes × Cov)} (h : parse branch bs = .ok rs) :
+    resNameBytes rs ≤ 3 * bs.length := by
+  have h1 := run_nameBytes branch {} bs
+  have h2 := traceNameBytes_le branch {} bs
+  rw [parse_ok h]
+  have e : accNameBytes ({} : Acc) = 0 := rfl
+  simp only [ctlNameLen] at h2
+  simp only [accNameBytes] at h1 e
+  omega
+
+/-- slots of the result + slots of the section left open at the end of the input = slots written -/
+theorem parse_slots {branch : Bool} {bs : Bytes} {rs : List (Bytes × Cov)} (h : parse branch bs = .ok rs) :
+    resSlots rs + covSlots (run branch {} bs).acc.cur = (cost branch bs).grown := by
+  have h1 := run_slots branch {} bs
+  rw [parse_ok h]
+  have e : accSlots ({} : Acc) = 0 := rfl
+  simp only [accSlots] at h1 e
+  unfold cost
+  omega
+
+theorem parse_all (P : Cov → Prop) (Q : Ev → Prop) (hempty : P {})
+    (hstep : ∀ a ev, Q ev → P a.cur → P (applyEv a ev).cur)
+    {branch : Bool} {bs : Bytes} {rs : List (Bytes × Cov)} (hq : ∀ ev ∈ trace branch {} bs, Q ev)
+    (h : parse branch bs = .ok rs) : ∀ r ∈ rs, P r.2 := by
+  have := run_all P Q hstep branch {} bs hq ⟨hempty, by simp⟩
+  rw [parse_ok h]
+  exact this.2
+
+theorem cost_next_eq {branch : Bool} {bs : Bytes} {rs : List (Bytes × Cov)} (h : parse branch bs = .ok rs) :
+    (cost branch bs).next = bs.length :=
+  costFrom_next_eq branch {} bs (parse_ok_not_halted h)
+
+theorem cost_mapOps_le (branch : Bool) (bs : Bytes) : (cost branch bs).mapOps ≤ 3 * (eols bs + 1) := by
+  have h1 := costFrom_mapOps_le branch {} bs
+  have h2 := trace_length_le branch {} bs
+  simp only [credit] at h2
+  unfold cost
+  omega
+
+theorem cost_keyBytes_le (branch : Bool) (bs : Bytes) : (cost branch bs).keyBytes ≤ 9 * bs.length := by
+  have h1 := costFrom_keyBytes_le branch {} bs
+  have h2 := traceNameBytes_le branch {} bs
+  simp only [ctlNameLen] at h2
+  unfold cost
+  omega
+
+theorem cost_copied_le (branch : Bool) (bs : Bytes) : (cost branch bs).copied ≤ 4 * bs.length := by
+  have h1 := costFrom_copied_le branch {} bs
+  have h2 := traceNameBytes_le branch {} bs
+  simp only [ctlNameLen] at h2
+  unfold cost
+  omega
+
+/-- slots written ≤ (B + 1) per `add_branch` call when every branch number is at most `B` -/
+theorem cost_grown_le (branch : Bool) (bs : Bytes) (B : Nat)
+    (hB : ∀ c ∈ branchCalls (trace branch {} bs), c.2 ≤ B) :
+    (cost branch bs).grown ≤ (B + 1) * (eols bs + 1) := by
+  have h1 := costFrom_grown_le branch {} bs
+  have h2 := sum_map_le_mul (branchCalls (trace branch {} bs)) (fun c => c.2 + 1) (B + 1)
+    (fun c hc => Nat.succ_le_succ (hB c hc))
+  have h3 := branchCalls_length_le (trace branch {} bs)
+  have h4 := trace_length_le branch {} bs
+  simp only [credit] at h4
+  have h5 : (B + 1) * (branchCalls (trace branch {} bs)).length ≤ (B + 1) * (eols bs + 1) :=
+    Nat.mul_le_mul_left _ (by omega)
+  unfold cost
+  omega
+
+/-- every branch number the machine commits fits `u32` -/
+theorem branchCalls_u32 (branch : Bool) (bs : Bytes) :
+    ∀ c ∈ branchCalls (trace branch {} bs), c.2 ≤ U32MAX := by
+  have h := trace_wf branch {} bs trivial
+  generalize trace branch {} bs = t at h
+  induction t with
+  | nil => simp [branchCalls]
+  | cons e t ih =>
+    have he := h e (by simp)
+    have ih' := ih (fun ev hev => h ev (List.mem_cons_of_mem _ hev))
+    cases e <;> simp only [branchCalls] <;> try exact ih'
+    intro c hc
+    simp only [List.mem_cons] at hc
+    rcases hc with hc | hc
+    · subst hc; exact he.2
+    · exact ih' c hc
+
 end Grcov.Lcov
